@@ -275,8 +275,11 @@ func (g *gen) data() []byte {
 	switch x := g.r.Intn(100); {
 	case x < 20:
 		n = 0
-	case x < 93:
+	case x < 90:
 		n = 1 + g.r.Intn(40)
+	case x < 93:
+		// Around the block boundaries of the archive format.
+		n = 512*(1+g.r.Intn(3)) + []int{-1, 0, 0, 0, 1}[g.r.Intn(5)]
 	default:
 		n = 500 + g.r.Intn(1200)
 	}
